@@ -89,6 +89,9 @@ class PathInfo:
                 seen[d[1]] = cur
                 # `?` applied to a literal Err(..)/None (resp. Ok/Some) takes only one edge
                 subj = terms.strip(d[3])
+                # the subject is, on this path, a literal variant constructor
+                if subj[0] == "agg" and subj[1] == "adt" and subj[2].split("::")[-1] not in d[2] and "::" in subj[2]:
+                    return False
                 if subj[0] == "call" and subj[1].endswith("::ops::Try>::branch") and subj[2]:
                     x = terms.strip(subj[2][0])
                     if x[0] == "agg" and x[1] == "adt":
@@ -98,6 +101,9 @@ class PathInfo:
                         if v in ("Ok", "Some") and "Break" in d[2] and "Continue" not in d[2]:
                             return False
             elif d[0] == "bool":
+                c = terms.strip(d[3])
+                if c[0] == "const" and c[1] == "int" and bool(c[2]) != d[2]:
+                    return False      # `matches!`-style flag set to a literal earlier on this path
                 prev = seen.get(("b", d[1]))
                 if prev is not None and prev != d[2]:
                     return False
@@ -216,3 +222,178 @@ def predicate_table(P, b):
         r = pi.ret()
         out.add((frozenset(facts), shape_of(r) if shape_of(r) != "?" else canon(r)))
     return out
+
+
+PLUMBING = ("::iter::IntoIterator>::into_iter", "::iter::Iterator>::next", "::ops::Deref>::deref", "::ops::DerefMut>::deref_mut",
+            "::clone::Clone>::clone", "::convert::Into<", "::convert::From<", "::borrow::Borrow", "::convert::AsRef")
+
+
+def path_facts(pi):
+    facts = []
+    for f in pi.cmp_facts():
+        if f[0] == "call":
+            facts.append(("%s(%s)" % (f[1], ", ".join(f[2])), f[3]))
+        elif f[1] <= f[2]:
+            facts.append(("%s(%s, %s)" % (f[0], f[1], f[2]), True))
+    for d in pi.decisions():
+        if d[0] == "variant":
+            facts.append(("variant(%s)" % d[1], d[2]))
+        elif d[0] == "int":
+            facts.append(("int(%s)" % d[1], d[2]))
+    return frozenset(facts)
+
+
+def iteration_table(P, b, header, effects=None):
+    """Exact behaviour of one trip of the loop whose header block is `header`
+    (normally the block calling Iterator::next): the set of
+    (facts decided on the path, effect calls in order with canonical arguments, 'back' | 'exit' | 'return').
+    `effects`: predicate on the callee name; default = every call that is not iterator/deref plumbing."""
+    from .prog import short
+    rows = set()
+    for pi in paths(P, b, start=header):
+        last = pi.path[-1]
+        if pi.back is not None:
+            how = "back" if pi.back == header else "back:%s" % pi.back
+        else:
+            tt = b.term(last)["t"]
+            how = "return" if tt == "return" else ("panic" if tt == "call" and b.term(last)["target"] is None else tt)
+            if how == "return":
+                from .ordrules import ret_shape
+                sh = ret_shape(pi)
+                if sh in ("Ok", "Err", "Some", "None"):
+                    how = "return:" + sh
+        eff = []
+        for bb, nm, args in pi.calls():
+            if bb == header:
+                continue
+            if effects is not None:
+                if not effects(nm):
+                    continue
+            elif any(p in nm for p in PLUMBING):
+                continue
+            eff.append("%s(%s)" % (short(nm), ", ".join(canon(a) for a in args)))
+        rows.add((path_facts(pi), tuple(eff), how))
+    return rows
+
+
+# ---- order-independent comparison of decision tables -------------------------------------------
+def _split_top(s):
+    out, depth, cur = [], 0, ""
+    for ch in s:
+        if ch in "([{":
+            depth += 1
+        elif ch in ")]}":
+            depth -= 1
+        if ch == "," and depth == 0:
+            out.append(cur.strip())
+            cur = ""
+        else:
+            cur += ch
+    if cur.strip():
+        out.append(cur.strip())
+    return out
+
+
+_NEGOP = {"Ne": "Eq", "Ge": "Lt", "Le": "Gt"}
+
+
+def _norm_fact(name, val):
+    import re
+    m = re.match(r"^(Eq|Ne|Lt|Le|Gt|Ge)\((.*)\)$", name)
+    if m and isinstance(val, bool):
+        op, args = m.group(1), _split_top(m.group(2))
+        if len(args) == 2:
+            l, r = args
+            if l > r:
+                l, r = r, l
+                op = {"Lt": "Gt", "Gt": "Lt", "Le": "Ge", "Ge": "Le"}.get(op, op)
+            if op in _NEGOP:
+                op, val = _NEGOP[op], not val
+            return "%s(%s, %s)" % (op, l, r), val
+    return name, val
+
+
+def _result_atom(res):
+    """A boolean result that is itself a test: (atom name, polarity) or None."""
+    import re
+    neg = False
+    r = res
+    while r.startswith("Not(") and r.endswith(")"):
+        r, neg = r[4:-1], not neg
+    m = re.match(r"^PartialEq(?:<.*?> for .*?>)?::(eq|ne)\((.*)\)$", r)
+    if m:
+        args = _split_top(m.group(2))
+        if len(args) == 2:
+            n, v = _norm_fact("%s(%s, %s)" % ("Eq" if m.group(1) == "eq" else "Ne", args[0], args[1]), True)
+            return n, (v != neg)
+    m = re.match(r"^(Eq|Ne|Lt|Le|Gt|Ge)\(", r)
+    if m:
+        n, v = _norm_fact(r, True)
+        return n, (v != neg)
+    if re.match(r"^[A-Za-z_\[<&]", r) and "(" in r:
+        return r, (not neg)
+    return None
+
+
+def _norm_rows(pt, bool_result):
+    rows = []
+    for fs, res in pt:
+        facts, dead = {}, False
+        for name, val in fs:
+            name, val = _norm_fact(name, val)
+            if name in facts and facts[name] != val:
+                if isinstance(val, tuple) and isinstance(facts[name], tuple):
+                    val = tuple(x for x in val if x in facts[name])
+                    dead = dead or not val
+                else:
+                    dead = True
+            facts[name] = val
+        if dead:
+            continue
+        ra = _result_atom(res) if bool_result and res not in ("0", "1") else None
+        if ra is not None:
+            n, pol = ra
+            for tv in (True, False):
+                if n in facts and facts[n] != tv:
+                    continue
+                rows.append((dict(facts, **{n: tv}), "1" if tv == pol else "0"))
+        else:
+            rows.append((facts, res))
+    return rows
+
+
+def same_function(got, want, bool_result=False, cap=1 << 14):
+    """Do two predicate tables denote the same function of their (pure) atoms?  Independent of
+    the order in which the atoms are tested and of short-circuiting; a redundant re-test is
+    accepted, a test that changes an outcome is not.  Falls back to equality above `cap` assignments."""
+    import itertools
+    if got == want:
+        return True
+    g, w = _norm_rows(got, bool_result), _norm_rows(want, bool_result)
+    dom = {}
+    for rows in (g, w):
+        for facts, _ in rows:
+            for n, v in facts.items():
+                d = dom.setdefault(n, set())
+                if isinstance(v, bool):
+                    d.update((True, False))
+                else:
+                    d.update(v)
+                    d.add("*other*")
+    names = sorted(dom)
+    size = 1
+    for n in names:
+        size *= len(dom[n])
+    if size > cap:
+        return False
+    def results(rows, asg):
+        out = set()
+        for facts, res in rows:
+            if all((asg[n] == v) if isinstance(v, bool) else (asg[n] in v) for n, v in facts.items()):
+                out.add(res)
+        return out
+    for combo in itertools.product(*[sorted(dom[n], key=str) for n in names]):
+        asg = dict(zip(names, combo))
+        if results(g, asg) != results(w, asg):
+            return False
+    return True
